@@ -1,5 +1,6 @@
 import Rbp.Proofs.Block
 import Rbp.Generated.Consts
+import Rbp.Proofs.RunSpec
 /-!
 # C12 — AuxPoW headers are skipped exactly, leaving block hash and txs unaffected
 -/
@@ -21,6 +22,39 @@ theorem auxpow_transparent (v : Nat) (b : Block) (hk : b.ok (some v)) (rest : By
       (readBlockCoin none (({ b with aux := none } : Block).enc ++ rest)).map (·.1) := by
   rw [readBlockCoin_enc (some v) b hk rest, readBlockCoin_enc none _ hk' rest]
   simp [Block.toR]
+
+/-- the parsed block does not contain the section at all: whatever AuxPoW section a block carries (or none), the header,
+    transaction count and transactions handed to the callbacks are the same -/
+theorem parsed_block_ignores_section (b : Block) (a : Option AuxPow) : ({ b with aux := a } : Block).toR = b.toR := rfl
+
+/-- **whole run.**  On Namecoin / Dogecoin (any coin, in fact) the output of a run over stored blocks is a function of the
+    parsed blocks `(blk k).toR` only (`Run.run_stored`), and those do not contain the AuxPoW section: two directories whose
+    stored blocks differ only in their AuxPoW sections — present or absent as the coin's threshold demands, any parent
+    coinbase, any branches and masks — give the same files and the same stdout, for every callback -/
+theorem auxpow_run_transparent (o : Run.Opts) (key : Option Bytes) (kvs₁ kvs₂ : List (Bytes × Bytes)) (fs₁ fs₂ : List Run.BlkFile)
+    (coin : Run.Coin) (ld₁ ld₂ : Run.Loaded) (hcoin : Run.coinOf o.coin = some coin)
+    (hl₁ : Run.loadIndex o kvs₁ = .ok ld₁) (hl₂ : Run.loadIndex o kvs₂ = .ok ld₂) (hmax : ld₁.maxH = ld₂.maxH)
+    (hkey : key ≠ some []) (sz : Nat → Nat) (blk₁ blk₂ : Nat → Block)
+    (hsame : ∀ k, (blk₁ k).toR = (blk₂ k).toR)
+    (hs₁ : ∀ k, o.start ≤ k → k < o.start + (ld₁.maxH + 1 - o.start) →
+      Run.Stored coin key (fs₁.filterMap fun f => (Run.parseBlkIndex f.name).map fun n => (n, f)) ld₁.trimmed k (sz k) (blk₁ k) ∧
+      (o.verify = true → Run.verifyBlock coin ld₁.trimmed (blk₁ k).toR k = .ok ()))
+    (hs₂ : ∀ k, o.start ≤ k → k < o.start + (ld₂.maxH + 1 - o.start) →
+      Run.Stored coin key (fs₂.filterMap fun f => (Run.parseBlkIndex f.name).map fun n => (n, f)) ld₂.trimmed k (sz k) (blk₂ k) ∧
+      (o.verify = true → Run.verifyBlock coin ld₂.trimmed (blk₂ k).toR k = .ok ()))
+    (hne : o.start ≤ ld₁.maxH)
+    (hnp : Run.callbackPanics o coin.version
+      ((List.range' o.start (ld₁.maxH + 1 - o.start)).map (fun k => (⟨k, sz k, (blk₁ k).toR⟩ : CB.EBlock))) = false) :
+    (Run.run o key kvs₁ fs₁).files = (Run.run o key kvs₂ fs₂).files ∧
+    (Run.run o key kvs₁ fs₁).stdout = (Run.run o key kvs₂ fs₂).stdout ∧
+    (Run.run o key kvs₁ fs₁).exit = 0 ∧ (Run.run o key kvs₂ fs₂).exit = 0 := by
+  have e : (List.range' o.start (ld₁.maxH + 1 - o.start)).map (fun k => (⟨k, sz k, (blk₁ k).toR⟩ : CB.EBlock)) =
+      (List.range' o.start (ld₂.maxH + 1 - o.start)).map (fun k => (⟨k, sz k, (blk₂ k).toR⟩ : CB.EBlock)) := by
+    rw [hmax]; simp only [hsame]
+  obtain ⟨a0, _, a1, a2⟩ := Run.run_stored o key kvs₁ fs₁ coin ld₁ hcoin hl₁ hkey sz blk₁ hs₁ hne hnp
+  obtain ⟨b0, _, b1, b2⟩ := Run.run_stored o key kvs₂ fs₂ coin ld₂ hcoin hl₂ hkey sz blk₂ hs₂ (by omega) (by rw [← e]; exact hnp)
+  rw [a1, a2, b1, b2, e, hmax]
+  exact ⟨rfl, rfl, a0, b0⟩
 
 /-- the threshold test is `version ≥ activation version`: equality included, one below excluded; coins without
     an activation version never read a section whatever the version -/
